@@ -27,12 +27,12 @@ FAMILY = {"array_int": "array_new", "array_float": "array_new", "array_bool": "a
           "pad_left_mb": "string_pad", "pad_right_mb": "string_pad", "concat_double": "string_concat",
           "replace_sq": "string_product", "join_sq": "string_product", "str_literal": "string_literal",
           "vec_new_lit": "vec_literal", "closures": "closure", "churn": "closure_churn", "churn_mix": "object_churn", "churn_over": "closure_churn",
-          "bytes_many": "bytes_alloc", "bytes_clone": "bytes_alloc", "bytes_resize": "bytes_alloc", "bytes_cycle": "bytes_alloc", "bytes_from_string": "bytes_alloc"}
+          "bytes_many": "bytes_alloc", "bytes_clone": "bytes_alloc", "bytes_resize": "bytes_alloc", "bytes_cycle": "bytes_alloc", "bytes_from_string": "bytes_alloc", "fs_read_bytes": "fs_read_bytes"}
 # bytes per unit of the size argument
 UNIT = {"array_int": 8, "array_float": 8, "array_obj": 8, "array_bool": 1, "vec_push": 8, "vec_push_float": 8, "vec_push_obj": 8,
         "vec_push_bool": 1, "vec_reserve": 8, "vec_reserve_float": 8, "vec_reserve_obj": 8, "vec_reserve_bool": 1, "manual_alloc": 8,
         "vec_fill": 8, "vec_fill_float": 8, "vec_fill_obj": 8, "vec_fill_bool": 1,
-        "manual_reuse": 8, "bytes_alloc": 1, "string_repeat": 16, "string_repeat_mb": 6, "pad_left": 1, "pad_right": 1,
+        "manual_reuse": 8, "bytes_alloc": 1, "fs_read_bytes": 1, "string_repeat": 16, "string_repeat_mb": 6, "pad_left": 1, "pad_right": 1,
         "pad_left_mb": 3, "pad_right_mb": 3}
 CAP_LO, CAP_HI = 1536 << 20, 3072 << 20
 LOOPS = ("vec_push", "vec_push_float", "vec_push_bool", "vec_push_obj", "vec_fill", "vec_fill_float", "vec_fill_bool", "vec_fill_obj",
@@ -41,11 +41,11 @@ LOOPS = ("vec_push", "vec_push_float", "vec_push_bool", "vec_push_obj", "vec_fil
 GUARDED_LOOPS = ("vec_new_lit", "closures")      # modelled as OLoop with the per-iteration requests read from the check log
 BYTES_TIED = ("bytes_alloc", "bytes_many", "bytes_clone", "bytes_resize", "bytes_cycle")   # byte buffers: heap part of the delta is the input's code only
 CHURN = ("churn", "churn_mix", "churn_over")                  # objects created and dropped across many collections, then two arrays of 45 % of the limit
-MODELLED = set(UNIT) | {"concat_double", "replace_sq", "join_sq", "str_literal", "churn", "churn_over"} | set(GUARDED_LOOPS) | set(BYTES_TIED)
+MODELLED = set(UNIT) | {"concat_double", "replace_sq", "join_sq", "str_literal", "churn", "churn_over"} | set(GUARDED_LOOPS) | set(BYTES_TIED) | {"fs_read_bytes"}
 HOST_T = 65536
 # operations that make ONE request: when they are refused the host must not have been asked for anything
 SINGLE = {"array_int", "array_float", "array_bool", "array_obj", "vec_reserve", "vec_reserve_float", "vec_reserve_bool", "vec_reserve_obj",
-          "manual_alloc", "bytes_alloc", "string_repeat", "string_repeat_mb", "pad_left", "pad_right", "pad_left_mb", "pad_right_mb"}
+          "manual_alloc", "bytes_alloc", "fs_read_bytes", "string_repeat", "string_repeat_mb", "pad_left", "pad_right", "pad_left_mb", "pad_right_mb"}
 
 
 def parse(out):
@@ -86,6 +86,8 @@ def request_bytes(r):
         return 24 + UNIT[op] * n
     if op == "manual_alloc":
         return 8 * n
+    if op == "fs_read_bytes":
+        return n          # the buffer is built for the requested count, whatever the file then delivers
     if op in ("string_repeat", "string_repeat_mb"):
         return None if n <= 1 else 24 + UNIT[op] * n
     if op in ("pad_left", "pad_right", "pad_left_mb", "pad_right_mb"):
@@ -146,7 +148,10 @@ def oracle(ctx, r, const, stats):
             ctx.violation(f"granted-over-limit:{fam}", f"request of {req} bytes granted with {used0} in use, limit {r['limit']}", rep)
         if kind == 1 and fits:
             ctx.violation(f"refused-under-limit:{fam}", f"request of {req} bytes refused with {used0} in use, limit {r['limit']}", rep)
-        if kind == 0 and r["delta"] - c != req and fam != "vec_reserve":     # reserve may grow by amortised doubling
+        if fam == "fs_read_bytes":
+            if kind == 0 and r["delta"] - c != min(req, 13):
+                ctx.violation(f"charge-mismatch:{fam}", f"charged {r['delta'] - c} bytes for {min(req, 13)} bytes read (count {req})", rep)
+        elif kind == 0 and r["delta"] - c != req and fam != "vec_reserve":     # reserve may grow by amortised doubling
             ctx.violation(f"charge-mismatch:{fam}", f"charged {r['delta'] - c} bytes for a request of {req}", rep)
 
     # refused, but the host had already been asked for memory: the address space of the process grew although the
@@ -160,7 +165,7 @@ def oracle(ctx, r, const, stats):
     if fam == "string_product" and kind == 1 and ev["maxhost"] > 4 * max(r["size"], 1) + HOST_T:
         ctx.violation(f"host-alloc-before-check:{fam}", f"refused (OutOfMemory) but the host allocator had been asked for a block of {ev['maxhost']} bytes "
                       f"(two operands of {r['size']} bytes, product {r['size'] ** 2}, limit {r['limit']})", rep)
-    if (r["op"] in SINGLE or fam in ("vec_push", "vec_reserve", "string_product")) and r["op"] != "bytes_alloc" and ev["uncovered"] > 0:
+    if (r["op"] in SINGLE or fam in ("vec_push", "vec_reserve", "string_product") or r["op"] in ("bytes_many", "bytes_clone", "bytes_resize", "bytes_cycle")) and ev["uncovered"] > 0:
         ctx.violation(f"host-alloc-uncovered:{fam}", f"the host allocator was asked for {ev['first_uncovered']} bytes without a preceding granted limit check "
                       f"that covers them ({ev['uncovered']} such requests)", rep)
     if kind in (1, 2, 3) and r["op"] in SINGLE and r["dpeak_kib"] > 512:
@@ -181,7 +186,8 @@ def oracle(ctx, r, const, stats):
         ctx.violation(f"unexpected-kind:{fam}", "InvalidAllocationSize", rep)
     neg_ok = r["size"] < 0 and (r["op"] in ("manual_alloc", "manual_reuse", "array_int", "array_float", "array_bool", "array_obj") or fam == "vec_reserve")
     bytes_ok = fam == "bytes_alloc" and (r["size"] <= 0 or r["size"] > (256 << 20))
-    if kind == 3 and not (neg_ok or bytes_ok):
+    fs_ok = fam == "fs_read_bytes" and (r["size"] < 0 or r["size"] > (16 << 20))
+    if kind == 3 and not (neg_ok or bytes_ok or fs_ok):
         ctx.violation(f"unexpected-kind:{fam}", "TypeError", rep)
     # guarded loops (vec literals, closures): Ok or OutOfMemory, and OutOfMemory only near the limit
     if r["op"] in ("vec_new_lit", "closures") and kind == 1 and r["a0"] + r["delta"] + 4096 < r["limit"]:
